@@ -44,6 +44,7 @@ func scenarios() []Scenario {
 		{Kind: "oneway", AtoB: 0, BtoA: 0},
 		{Kind: "idle", AtoB: 2000, BtoA: 300},
 		{Kind: "closeearly", AtoB: 5000, BtoA: 0},
+		{Kind: "bursts", AtoB: 3000, BtoA: 200},
 	}
 }
 
@@ -219,7 +220,7 @@ var forceWrap = os.Getenv("C02_FORCE_WRAP") == "1"
 
 func genCase(rt *rapid.T) Case {
 	var c Case
-	c.Sc.Kind = rapid.SampledFrom([]string{"oneway", "simultaneous", "halfclose", "zerowindow", "idle", "closeearly"}).Draw(rt, "kind")
+	c.Sc.Kind = rapid.SampledFrom([]string{"oneway", "simultaneous", "halfclose", "zerowindow", "idle", "closeearly", "bursts"}).Draw(rt, "kind")
 	size := rapid.OneOf(rapid.IntRange(0, 3), rapid.IntRange(1, 3000), rapid.IntRange(3000, 40000))
 	c.Sc.AtoB = size.Draw(rt, "a_to_b")
 	c.Sc.BtoA = size.Draw(rt, "b_to_a")
